@@ -258,7 +258,7 @@ def execute(u: dict, negs: dict, worlds) -> dict:
     out = {'kind': 'decoded', 'code': 0, 'sub': 0, 'size': len(body), '_detail': ''}
     sys.setprofile(meter)
     try:
-        msg = Message.unpack(typ, body, neg)
+        msg = Message.unpack(typ, memoryview(body), neg)      # a memoryview, as Connection.reader_async hands it over
         force(msg, neg, worlds)
     except Notify as n:
         out.update(kind='notify', code=int(n.code), sub=int(n.subcode), _detail=str(n)[:100])
